@@ -101,7 +101,42 @@ fn deep_message(e: &mut Ent) -> (Vec<u8>, &'static str) {
 /// that follows. Decoding must fail fast whatever the quota: no allocation sized
 /// from the prefix, no arithmetic overflow on length x element size, no cursor
 /// beyond the input.
-fn length_bomb(e: &mut Ent) -> (Vec<u8>, Option<&'static str>, &'static str) {
+/// Choices of `length_bomb`: drawn from the entropy buffer (search) or taken from a
+/// fixed list (the enumerated family, where every combination is run).
+enum Chooser<'a, 'b> {
+    Ent(&'a mut Ent<'b>),
+    Fixed(Vec<usize>, usize),
+}
+impl Chooser<'_, '_> {
+    fn below(&mut self, n: usize) -> usize {
+        match self {
+            Chooser::Ent(e) => e.below(n),
+            Chooser::Fixed(v, i) => {
+                let x = v.get(*i).copied().unwrap_or(0);
+                *i += 1;
+                x % n.max(1)
+            }
+        }
+    }
+    fn range(&mut self, lo: usize, hi: usize) -> usize {
+        match self {
+            Chooser::Ent(e) => e.range(lo, hi),
+            Chooser::Fixed(..) => lo + self.below(hi - lo + 1),
+        }
+    }
+    fn u8(&mut self) -> u8 {
+        match self {
+            Chooser::Ent(e) => e.u8(),
+            Chooser::Fixed(..) => 0xab,
+        }
+    }
+    fn pick<'x, T>(&mut self, xs: &'x [T]) -> &'x T {
+        let i = self.below(xs.len());
+        &xs[i]
+    }
+}
+
+fn length_bomb(e: &mut Chooser) -> (Vec<u8>, Option<&'static str>, &'static str) {
     let data: Vec<u8> = (0..e.range(0, 12)).map(|_| e.u8()).collect();
     let kind = e.below(12);
     let elem: u64 = match kind {
@@ -110,7 +145,7 @@ fn length_bomb(e: &mut Ent) -> (Vec<u8>, Option<&'static str>, &'static str) {
         4 | 5 => 8,
         _ => 1,
     };
-    let near = |x: u64, e: &mut Ent| -> u64 { x.wrapping_add(*e.pick(&[0u64, 1, 2, u64::MAX, u64::MAX - 1])) };
+    let near = |x: u64, e: &mut Chooser| -> u64 { x.wrapping_add(*e.pick(&[0u64, 1, 2, u64::MAX, u64::MAX - 1])) };
     let len: u64 = match e.below(8) {
         0 => data.len() as u64 / elem + 1,
         1 => data.len() as u64 + *e.pick(&[1u64, 2, 3, 7]),
@@ -504,7 +539,7 @@ impl Check for C06 {
                 (b, c)
             }
             9 => {
-                let (b, native, c) = length_bomb(&mut e);
+                let (b, native, c) = length_bomb(&mut Chooser::Ent(&mut e));
                 match e.below(4) {
                     0 => target = Some(Target::NoType),
                     1 => {
@@ -537,6 +572,68 @@ impl Check for C06 {
             }
             _ => Target::Native(e.below(reg.len())),
         });
+        judge_case(&bytes, class, &target, &cfg, ctx)
+    }
+    /// Enumerated family: every combination of length-bomb item, declared length,
+    /// target and quota (run in both build profiles).
+    fn enumerate(&self, _tier: Tier, shard: u64, nshards: u64, emit: &mut dyn FnMut(&[u8]) -> bool) {
+        let mut k = 0u64;
+        for ndata in [0usize, 5] {
+            for kind in 0..12usize {
+                for lencat in 0..8usize {
+                    for pick in 0..7usize {
+                        for target in 0..4usize {
+                            for quota in 0..2usize {
+                                k += 1;
+                                if k % nshards != shard {
+                                    continue;
+                                }
+                                let d = format!("LB:{ndata},{kind},{lencat},{pick},{target},{quota}");
+                                if !emit(d.as_bytes()) {
+                                    return;
+                                }
+                            }
+                        }
+                    }
+                }
+            }
+        }
+    }
+    fn direct_case(&self, data: &[u8], ctx: &mut Ctx) -> Outcome {
+        let text = String::from_utf8_lossy(data).to_string();
+        let nums: Vec<usize> = match text.strip_prefix("LB:") {
+            Some(r) => r.split(',').filter_map(|x| x.trim().parse().ok()).collect(),
+            None => return Outcome::Skip("unknown-direct-case"),
+        };
+        if nums.len() != 6 {
+            return Outcome::Skip("unknown-direct-case");
+        }
+        let (ndata, kind, lencat, pick, target, quota) = (nums[0], nums[1], nums[2], nums[3], nums[4], nums[5]);
+        // order of choices in length_bomb: data length, kind, length category, then inner picks
+        let mut ch = Chooser::Fixed(vec![ndata, kind, lencat, pick, pick, pick, pick], 0);
+        let (bytes, native, class) = length_bomb(&mut ch);
+        let reg = registry();
+        let target = match target {
+            0 => Target::NoType,
+            1 => Target::Untyped(rtype::Env::default(), vec![]),
+            2 => Target::Untyped(rtype::Env::default(), vec![Ty::opt(Ty::Prim(rtype::Prim::Bool))]),
+            _ => match native.and_then(|n| reg.iter().position(|o| o.name() == n)) {
+                Some(i) => Target::Native(i),
+                None => Target::NoType,
+            },
+        };
+        let cfg = Cfg { decoding: if quota == 0 { None } else { Some(1000) }, skipping: None, full_error: true, max_type_len: None, stack: 8 << 20 };
+        ctx.class("enumerated-length-bomb");
+        judge_case(&bytes, class, &target, &cfg, ctx)
+    }
+}
+
+fn judge_case(bytes: &[u8], class: &'static str, target: &Target, cfg: &Cfg, ctx: &mut Ctx) -> Outcome {
+    {
+        let bytes: Vec<u8> = bytes.to_vec();
+        let target = target.clone();
+        let cfg = cfg.clone();
+        let reg = registry();
         // without a quota a declared length may legitimately cost time: keep the domain finite
         ctx.class(class);
         ctx.class(match &target {
